@@ -39,6 +39,7 @@ LAWS = {
     "linked-while-referenced": "a file listed with an accepted publish / avatar update stays linked and stored while the message / topic / user exists",
     "c16-attachment-link-all-or-nothing": "a stored message is left without links to its existing attachments because another listed attachment does not exist",
     "nothing-else-removed": "upload records and bytes disappear only through GC runs or failed uploads",
+    "url-names-upload": "a URL yields an id only if its cleaned path is [serve prefix or nothing] + an 11-character name from [-_A-Za-z0-9] followed by nothing or a character outside that class",
     "no-panic": "the code under test panicked",
 }
 
@@ -483,6 +484,12 @@ def monitors(lines, answers):
     pub_topic = {}
     pending_gc = None
     pending = None            # op between two dumps: (kind, ...) for nothing-else-removed
+    import re
+    cleaned = {}
+    for line, ans in zip(lines, answers):
+        if line.startswith("CL "):
+            cleaned[line.split()[1]] = ans.split()[1] if len(ans.split()) > 1 else None
+    name_re = re.compile(rb"^[-_A-Za-z0-9]{11}($|[^-_A-Za-z0-9])")
     for i, (line, ans) in enumerate(zip(lines, answers)):
         w = line.split()
         cmp_, side = split(ans)
@@ -490,6 +497,12 @@ def monitors(lines, answers):
         if a and a[0] == "PANIC":
             fails.append(("no-panic", i, ans))
             continue
+        if w[0] == "ID" and a[1] != "0" and cleaned.get(w[2]) is not None:
+            c = unhx(cleaned[w[2]])
+            k = c.rfind(b"/")
+            dirp, name = c[:k + 1], c[k + 1:]
+            if dirp not in (b"", unhx(w[1])) or not name_re.match(name):
+                fails.append(("url-names-upload", i, "id %s from cleaned path %r with serve prefix %r" % (a[1], c, unhx(w[1]))))
         if w[0] == "FA":
             mime = unhx(w[2]).decode("latin1")
             if is_active(mime) and a[1] != "1":
@@ -515,6 +528,8 @@ def monitors(lines, answers):
                 fails.append(("methods", i, "method %s answered %s %s" % (d["m"], status, effect)))
             if status == "CRASH" and d.get("mh") != "none":
                 fails.append(("c16-finish-failure-nil-deref", i, "handler panicked: " + unhx(side.get("panic", "-")).decode("latin1")))
+            elif status == "500" and effect in ("residue", "residue-nobytes") and d.get("fault") in ("finish", "start", "create"):
+                pass        # a FAILED upload (store failure): the record stays for the GC, as the property says
             elif status != "200" and status != "CRASH" and worked:
                 fails.append(("refused-no-effect", i, "status %s but effect %s" % (status, effect)))
             if w[0] == "UP" and d["body"].startswith("form:"):
@@ -543,14 +558,15 @@ def monitors(lines, answers):
             files = dict(x.split(":") for x in d["files"].split(",")) if d["files"] != "-" else {}
             links = set(d["links"].split(",")) if d["links"] != "-" else set()
             disk = set(d["disk"].split(",")) if d["disk"] != "-" else set()
-            if "orphan" in disk or disk != set(files):
-                fails.append(("nothing-else-removed" if not set(files) <= disk else "gc-exact", i,
-                              "upload directory and upload records differ: files=%s disk=%s" % (sorted(files), sorted(disk))))
+            completed = {k for k, st in files.items() if st == "1"}
+            if "orphan" in disk or not completed <= disk or not disk <= set(files):
+                fails.append(("nothing-else-removed" if not completed <= disk else "gc-exact", i,
+                              "upload directory and upload records differ: completed=%s disk=%s" % (sorted(completed), sorted(disk))))
             for l in links:
                 if l.split(">")[0] not in files:
                     fails.append(("linked-while-referenced", i, "link %s to a missing record" % l))
             if last_dump is not None:
-                pf, pl, _ = last_dump
+                pf, pl, pd = last_dump
                 gone = set(pf) - set(files)
                 if pending_gc is not None:
                     gi, kind, lim, gonerec, gonefiles = pending_gc
@@ -560,8 +576,8 @@ def monitors(lines, answers):
                         fails.append(("gc-exact", gi, "records reported removed %s, records gone %s" % (sorted(removed), sorted(gone))))
                     if not removed <= unlinked:
                         fails.append(("gc-exact", gi, "GC removed linked uploads %s" % sorted(removed - unlinked)))
-                    if gonefiles != len(removed):
-                        fails.append(("gc-exact", gi, "%d records removed but %d files deleted" % (len(removed), gonefiles)))
+                    if gonefiles != len(removed & pd):
+                        fails.append(("gc-exact", gi, "%d records with bytes removed but %d files deleted" % (len(removed & pd), gonefiles)))
                     want = set() if kind == "past" else unlinked
                     n = len(want) if lim <= 0 else min(lim, len(want))
                     if len(removed) != n:
